@@ -6,6 +6,8 @@ import (
 	"fmt"
 	"io"
 	"math/rand"
+	"os"
+	"path/filepath"
 	"sort"
 	"strings"
 	"sync"
@@ -647,6 +649,63 @@ func c12SharedProg(c *core.Ctx, i int64, r *rand.Rand) {
 	}
 	c.Count(fmt.Sprintf("shared_prog_executions_from_%d_goroutines", n), 1)
 	c.Nontrivial(core.Hash("s", i))
+	// the same with the program printing into an operating-system file (an *os.File is safe for concurrent use;
+	// opened for appending, so every write lands whole): a third of the cases, and /dev/null for another third
+	if i%3 != 0 {
+		fn := filepath.Join(c.Dir, fmt.Sprintf("shared-out-%d", i))
+		if i%3 == 2 {
+			fn = "/dev/null"
+		}
+		f, ferr := os.OpenFile(fn, os.O_CREATE|os.O_WRONLY|os.O_APPEND, 0o644)
+		if ferr != nil {
+			return
+		}
+		defer func() {
+			f.Close()
+			if fn != "/dev/null" {
+				os.Remove(fn)
+			}
+		}()
+		lg3 := &mon.LockedWriter{}
+		p3, err3 := bcl.Parse(src, "shared", bcl.OptOutput(f), bcl.OptLogger(lg3))
+		if err3 != nil {
+			return
+		}
+		bad3 := make([]string, n)
+		for k := 0; k < n; k++ {
+			wg.Add(1)
+			go func(k int) {
+				defer wg.Done()
+				pan, _ := protect(func() {
+					b, bi, e := bcl.Execute(p3)
+					if !deepBlocksEq(b, wantB) || !deepBindingEq(bi, wantBi) || fmt.Sprint(e) != fmt.Sprint(wantErr) {
+						bad3[k] = fmt.Sprintf("blocks/binding/error differ: err %v vs %v", e, wantErr)
+					}
+				})
+				if pan != "" {
+					bad3[k] = "panic: " + pan
+				}
+			}(k)
+		}
+		wg.Wait()
+		c.Eval(int64(n))
+		for _, b := range bad3 {
+			if b != "" {
+				c.Violation("shared-prog-result", "executing one Prog (printing into an *os.File) from several goroutines: "+b, map[string]any{"source": core.Trunc(string(src), 1000), "goroutines": n})
+				return
+			}
+		}
+		if fn != "/dev/null" {
+			data, _ := os.ReadFile(fn)
+			got := strings.Split(strings.TrimSuffix(string(data), "\n"), "\n")
+			sort.Strings(got)
+			if strings.Join(got, "\n") != strings.Join(want, "\n") {
+				c.Violation("shared-prog-output", fmt.Sprintf("the file written by %d concurrent executions does not hold %d times the sequential output (%d lines, expected %d)", n, n, len(got), len(want)), map[string]any{"source": core.Trunc(string(src), 1000)})
+				return
+			}
+		}
+		c.Count("shared_prog_executions_printing_into_an_os_file", 1)
+	}
 }
 
 func init() {
